@@ -92,6 +92,9 @@ class Gen:
             x = r.random()
             if x < 0.25:
                 answers.append({'tok': s})
+            elif x < 0.29:
+                # a value that is itself callable
+                answers.append({'callobj': s})
             elif x < 0.33:
                 answers.append({'boolobj': s, 'truth': r.random() < 0.5})
             elif x < 0.40:
